@@ -47,6 +47,80 @@ func TestVerifC07(t *testing.T) {
 	r.Note("fully_mutated_messages", len(full))
 	r.Sample(hk.D{"message": full[2].detail()["lens"], "mutations": "every single-bit flip of ciphertext, tag, nonce and aad; every truncation; 1..32-byte extensions; swapped nonce/aad"})
 
+	// thorough tier: a 4 GiB message (2^32 bytes of plaintext, 2^28 blocks; SP 800-38D allows 2^36-32 bytes)
+	// sealed in place and opened in place on the accelerated path: Open must return every output of Seal.
+	// Oracle: the round trip, plus ciphertext blocks at chosen positions against E_K(J0 + i + 1) by the model.
+	if hk.Thorough() && asmDetected {
+		withAsm(true, func() {
+			const n = 1 << 32
+			big := hk.ZeroMap(n+4096, true)
+			if big == nil {
+				r.Inconclusive("c07: cannot map 4 GiB for the giant message")
+				return
+			}
+			defer hk.Unmap(big)
+			key, nonce, aad := rng.Bytes(16), rng.Bytes(12), rng.Bytes(20)
+			a, _ := newAEAD(key, 12, 16)
+			var ct, back []byte
+			var oerr error
+			p, msg, _, _ := hk.Try(func() { ct = a.Seal(big[:0:n+16], nonce, big[:n], aad) })
+			d := hk.D{"key": hk.Hex(key), "nonce": hk.Hex(nonce), "plaintext": "2^32 zero bytes, sealed in place"}
+			if p || len(ct) != n+16 {
+				d["panic"] = msg
+				r.Violation("seal-fails-on-4GiB-message", d)
+				return
+			}
+			g := ref.NewGCM(key)
+			j0 := g.J0(nonce)
+			for _, blk := range []uint64{0, 1, 255, 1 << 20, 1<<28 - 1} {
+				ctr := j0
+				v := uint32(ctr[12])<<24 | uint32(ctr[13])<<16 | uint32(ctr[14])<<8 | uint32(ctr[15])
+				v += uint32(blk) + 1
+				ctr[12], ctr[13], ctr[14], ctr[15] = byte(v>>24), byte(v>>16), byte(v>>8), byte(v)
+				ks := ref.SM4Encrypt(key, ctr[:])
+				if !bytes.Equal(ct[16*blk:16*blk+16], ks) {
+					d["block"] = blk
+					r.Violation("seal-4GiB-keystream-block-wrong", d)
+				}
+			}
+			p, msg, _, _ = hk.Try(func() { back, oerr = a.Open(ct[:0], nonce, ct, aad) })
+			switch {
+			case p:
+				d["panic"] = msg
+				r.Violation("open-panics-on-4GiB-output-of-seal", d)
+			case oerr != nil:
+				d["err"] = oerr.Error()
+				r.Violation("open-rejects-4GiB-output-of-seal", d)
+			case len(back) != n:
+				r.Violation("open-4GiB-wrong-length", d)
+			default:
+				for off := 0; off < n; off += 1 << 26 {
+					for _, c := range back[off : off+4096] {
+						if c != 0 {
+							r.Violation("open-4GiB-plaintext-wrong", d)
+							off = n
+							break
+						}
+					}
+				}
+				if back[n-1] != 0 || back[n-17] != 0 {
+					r.Violation("open-4GiB-plaintext-wrong", d)
+				}
+			}
+			// and one flipped bit in the middle must be rejected
+			if oerr == nil && !p {
+				p2, _, _, _ := hk.Try(func() { ct = a.Seal(big[:0:n+16], nonce, big[:n], aad) })
+				if !p2 {
+					ct[n/2] ^= 4
+					_, e2 := a.Open(ct[:0], nonce, ct, aad)
+					if e2 == nil {
+						r.Violation("open-accepts-modified-4GiB-message", d)
+					}
+				}
+			}
+			r.Eval("giant:4GiB-roundtrip")
+		})
+	}
 	// forgery by length wrap: a message sealed under aad' must not open under 0^(2^29) || aad' (nor the
 	// other way round); leading zero blocks change nothing but the length block
 	{
